@@ -788,7 +788,7 @@ func (t *Term) ref() string {
 			return fpLit(t.V)
 		}
 	case OVar:
-		return "|" + t.Name + "|"
+		return "|" + symName(t.Name) + "|"
 	}
 	return fmt.Sprintf("t%d", t.ID)
 }
@@ -833,9 +833,9 @@ func (t *Term) body() string {
 		args()
 	case OUF:
 		if len(t.Args) == 0 {
-			return "|" + t.Name + "|"
+			return "|" + symName(t.Name) + "|"
 		}
-		sb.WriteString("(|" + t.Name + "|")
+		sb.WriteString("(|" + symName(t.Name) + "|")
 		args()
 	default:
 		n, ok := opName[t.Op]
@@ -907,7 +907,7 @@ func (e *Emitter) Define(t *Term) string {
 			if !e.ufs[key] {
 				e.ufs[key] = true
 				var sb strings.Builder
-				fmt.Fprintf(&sb, "(declare-fun |%s| (", x.Name)
+				fmt.Fprintf(&sb, "(declare-fun |%s| (", symName(x.Name))
 				for _, a := range x.Args {
 					sb.WriteString(a.Sort.String() + " ")
 				}
@@ -1118,4 +1118,23 @@ func (b *Builder) urange(t *Term) (uint64, uint64) {
 	}
 	t.lo, t.hi, t.rng = lo, hi, true
 	return lo, hi
+}
+
+
+// symName makes a name usable inside |...|: SMT-LIB quoted symbols cannot contain '|' or '\\'
+// (regex patterns in the names of the regexp predicates do). The replacement is injective.
+func symName(n string) string {
+	if !strings.ContainsAny(n, "|\\%") {
+		return n
+	}
+	var sb strings.Builder
+	for k := 0; k < len(n); k++ {
+		switch c := n[k]; c {
+		case '|', '\\', '%':
+			fmt.Fprintf(&sb, "%%%02x", c)
+		default:
+			sb.WriteByte(c)
+		}
+	}
+	return sb.String()
 }
